@@ -91,6 +91,21 @@ def check(run):
                      ("model.ts", 'import { %s } from "./values";\ntype %s = typeof %s;\nexport type X = { t: %s; n: number };' % (nm, nm, nm, nm)),
                      ("values.ts", 'export const %s = "%s" as const;' % (nm, lit))]
         values.append((single, multi, "local-type-shadows-imported-value"))
+    # same-named enums of two directories, used through their members only (the emitted identifiers of the members must stay apart)
+    for i in range(8 if quick else 120):
+        nm = r.choice(["Status", "Kind", "Level"])
+        m1, m2 = r.sample(["Open", "Closed", "Held"], 2)
+        pa, pb = r.sample(["invoice", "parcel", "ticket"], 2)
+        def enum(name, p): return 'enum %s { %s = "%s-%s", %s = "%s-%s" }' % (name, m1, p, m1.lower(), m2, p, m2.lower())
+        use_whole = r.random() < 0.25
+        single = [("entry.ts", "%s\n%s\nexport type X = { a: A%s.%s; b: B%s.%s%s };\nparse.buildParsers<{ X: X }>();"
+                   % (enum("A" + nm, pa), enum("B" + nm, pb), nm, m1, nm, m1, ("; w: A%s" % nm) if use_whole else ""))]
+        multi = [("entry.ts", 'import { TA } from "./billing/use";\nimport { TB } from "./shipping/use";\nexport type X = { a: TA["a"]; b: TB["b"]%s };\nparse.buildParsers<{ X: X }>();'
+                  % ('; w: TA["w"]' if use_whole else "")),
+                 ("billing/status.ts", "export " + enum(nm, pa)), ("shipping/status.ts", "export " + enum(nm, pb)),
+                 ("billing/use.ts", 'import { %s } from "./billing/status";\nexport type TA = { a: %s.%s%s };' % (nm, nm, m1, ("; w: %s" % nm) if use_whole else "")),
+                 ("shipping/use.ts", 'import { %s } from "./shipping/status";\nexport type TB = { b: %s.%s };' % (nm, nm, m1))]
+        values.append((single, multi, "same-named-enums-used-through-members"))
     # barrels: a diamond of `export *` (the shared module is reached twice; names of a module listed after it must still be found),
     # export lists carrying a type and a value under one name, an explicit re-export next to an `export *` of the same name
     for i in range(18 if quick else 300):
@@ -214,14 +229,17 @@ def check(run):
         if not keys or any("<" in k or "::" not in k for k in keys): continue
         nm = name_map(keys, rr["code"])
         if nm is None: continue
-        addrs = [k.split("::", 1) for k in keys]
+        # an enum member `Enum.Member` is named after its enum's address, followed by `__Member`
+        addrs = [(f, n.split(".", 1)[0]) for f, n in (k.split("::", 1) for k in keys)]
+        members = [("__" + k.split("::", 1)[1].split(".", 1)[1]) if "." in k.split("::", 1)[1] else "" for k in keys]
         alls = "[" + "; ".join("mkAddr %s %s" % (coq_str(f), coq_str(n)) for f, n in addrs) + "]"
         exprs.append('concat_str "," (map (fun a => ts_identifier a %s) %s)' % (alls, alls))
-        emeta.append((which, dict(files), keys, [nm[k] for k in keys]))
+        emeta.append((which, dict(files), keys, [nm[k] for k in keys], members))
     ident_disagree = []
-    for (which, files, keys, emitted), out in zip(emeta, common.run_coq_cases(IMPORTS, exprs, tag="C09")):
-        if out.split(",") != emitted:
-            ident_disagree.append({"files": files, "named_types": keys, "emitted_identifiers": emitted, "model_identifiers": out.split(",")})
+    for (which, files, keys, emitted, members), out in zip(emeta, common.run_coq_cases(IMPORTS, exprs, tag="C09")):
+        model_ids = [x + m for x, m in zip(out.split(","), members)]
+        if model_ids != emitted:
+            ident_disagree.append({"files": files, "named_types": keys, "emitted_identifiers": emitted, "model_identifiers": model_ids})
         if len(set(emitted)) != len(emitted) and not ("identifier_collision_after_sanitising" in listed and
                                                      any(f.replace("-", "_") in [g_.replace("-", "_") for g_ in files if g_ != f] for f in files)):
             fails.append(("two-named-types-share-one-identifier", {"files": files, "named_types": keys, "emitted_identifiers": emitted}))
@@ -233,8 +251,8 @@ def check(run):
                    "referenced side by side; unresolvable references must yield diagnostics")
     cov["correspondence"]["Model/Names.v ts_identifier vs emitted identifiers"] = {
         "cases": len(emeta), "disagreements": len(ident_disagree),
-        "distribution": {"projects with same-named types": sum(1 for w, _, _, _ in emeta if w == "same"),
-                         "files per same-named project": dict(collections.Counter(len(f) - 1 for w, f, _, _ in emeta if w == "same"))}}
+        "distribution": {"projects with same-named types": sum(1 for w, *_ in emeta if w == "same"),
+                         "files per same-named project": dict(collections.Counter(len(f) - 1 for w, f, *_ in emeta if w == "same"))}}
     cov["spec_checks"]["multi-file project == single-file program"] = {
         "parsers_judged": judged, "unresolved_projects": len(unres),
         "failures": dict(collections.Counter(k for k, _ in fails)), "failures inside listed classes": dict(in_known),
